@@ -112,9 +112,28 @@ def r12a(ctx, rep, cr):
     rep.floor('R12a', 'functions taking both lock tables', n, 4)
 
 
+def _releases_vote_handles(cr, f, defs, need_votes_field):
+    """f calls release_by_handle_with_wait_cleanup with a handle read from PrepareVote.lock_handle (of the votes of a transaction)"""
+    for c in A.calls_to(f, LM + 'release_by_handle_with_wait_cleanup'):
+        if len(c.args) < 2:
+            continue
+        sl = A.backward_slice(f, [c.args[1]], defs)
+        handle = any(x.endswith('PrepareVote.lock_handle') or x.endswith('.lock_handle') for x in sl.fields)
+        if not handle:
+            # the handles may be collected first through a closure (votes.values().filter_map(|v| … lock_handle …))
+            for h in A.with_closures(cr.fns, f.name):
+                if h.name != f.name and any(x.endswith('.lock_handle') for x in A.field_reads(h)) and \
+                        any(st[1][0] == 'agg' and st[1][1].endswith(h.name) and st[0][0] in sl.locals for b in f.bbs for st in b['s']):
+                    handle = True
+        if handle and (not need_votes_field or any(x.endswith('DistributedTransaction.votes') for x in sl.fields)):
+            return True
+    return False
+
+
 def r12b(ctx, rep, cr):
     rep.rule('R12b', 'every coordinator function that removes a transaction from pending releases, by the handle of each Yes vote of '
-                     'that transaction, through release_by_handle_with_wait_cleanup (which also removes it from the wait-for graph); '
+                     'that transaction, through release_by_handle_with_wait_cleanup (which also removes it from the wait-for graph), itself or in a helper it hands '
+                     'the transaction to; '
                      'every LockManager function that removes from the lock table also updates tx_locks while both guards are held')
     n = 0
     for f in T.coordinator_fns(cr):
@@ -125,19 +144,19 @@ def r12b(ctx, rep, cr):
         n += 1
         rep.analysed(f)
         rel = A.calls_to(f, LM + 'release_by_handle_with_wait_cleanup')
-        ok = False
-        for c in rel:
-            if len(c.args) > 1:
-                sl = A.backward_slice(f, [c.args[1]], defs)
-                handle = any(x.endswith('PrepareVote.lock_handle') or x.endswith('.lock_handle') for x in sl.fields)
-                if not handle:
-                    # the handles may be collected first through a closure (votes.values().filter_map(|v| … lock_handle …))
-                    for h in A.with_closures(cr.fns, f.name):
-                        if h.name != f.name and any(x.endswith('.lock_handle') for x in A.field_reads(h)) and \
-                                any(st[1][0] == 'agg' and st[1][1].endswith(h.name) and st[0][0] in sl.locals for b in f.bbs for st in b['s']):
-                            handle = True
-                if handle and any(x.endswith('DistributedTransaction.votes') for x in sl.fields):
-                    ok = True
+        ok = _releases_vote_handles(cr, f, defs, need_votes_field=True)
+        if not ok:
+            # the release loop may live in a private helper that is handed the transaction / its votes
+            for c in A.calls(f):
+                h = cr.fns.get(c.resolved)
+                if h is None or not c.resolved.startswith(T.DT) or h is f:
+                    continue
+                if _releases_vote_handles(cr, h, A.Defs(h), need_votes_field=False):
+                    sl = A.backward_slice(f, [a for a in c.args if a[0] != 'k'], defs)
+                    typed = any(a[0] != 'k' and 'DistributedTransaction' in f.locals[a[1][0]] for a in c.args)
+                    if typed or any(x.endswith('DistributedTransaction.votes') for x in sl.fields) or any(r_.dest[0] in sl.locals for r_ in rems):
+                        ok = True
+                        rel = rel + [c]
         if ok:
             rep.holds('R12b', f, 'release per Yes vote', '%d release call(s) fed by votes[..].lock_handle' % len(rel))
         else:
